@@ -36,10 +36,13 @@ def inline_defaults(files):
     f2 = copy.deepcopy(files)
     # the load order and who lists whom (first lister wins), as data.rs does it
     docs = []            # (file, doc, included_by index)
-    pending = [("laze-project.yml", None)]; pos = 0
+    pending = [("laze-project.yml", None, None)]; pos = 0
+    loaded = set()
     while pos < len(pending):
-        fn, inc = pending[pos]; pos += 1
+        fn, inc, root = pending[pos]; pos += 1
         if fn not in f2: return None
+        if fn in loaded: return None          # one file under two import roots: its documents would be inlined twice
+        loaded.add(fn)
         start = len(docs)
         for d in f2[fn]: docs.append((fn, d, inc))
         base = posixpath.dirname(fn)
@@ -47,10 +50,16 @@ def inline_defaults(files):
             d = docs[i][1]
             for sdir in d.get("subdirs") or []:
                 n = posixpath.join(base, sdir, "laze.yml")
-                if all(n != p[0] for p in pending): pending.append((n, i))
+                if all((n, root) != (p[0], p[2]) for p in pending): pending.append((n, i, root))
+            for imp in d.get("imports") or []:
+                cands = [posixpath.join(imp["path"], x) for x in ("laze-lib.yml", "laze.yml", "laze-project.yml")]
+                found = [c for c in cands if c in f2]
+                if not found or imp.get("symlink"): return None
+                n = found[0]; r = posixpath.dirname(n)
+                if all((n, r) != (p[0], p[2]) for p in pending): pending.append((n, i, r))
             for incf in d.get("includes") or []:
                 n = posixpath.join(base, incf)
-                if all(n != p[0] for p in pending): pending.append((n, i))
+                if all((n, root) != (p[0], p[2]) for p in pending): pending.append((n, i, root))
     eff = {}             # doc index -> {kind: defaults dict} handed on to listed files (only docs with subdirs)
     changed = False
     for i, (fn, d, inc) in enumerate(docs):
